@@ -153,6 +153,9 @@ struct Monitor {
     /// stop requests that have reached every registered thread of a runtime
     /// (identified by its thread list) and have not been lifted yet
     stops_in_force: BTreeMap<usize, u64>,
+    /// runtimes in which two stop requests were in force at the same time since
+    /// the last moment without any
+    overlapped: std::collections::BTreeSet<usize>,
     /// child most recently spawned by each thread, and threads that the parent
     /// has entered into the runtime's thread list
     last_spawned: BTreeMap<usize, usize>,
@@ -267,6 +270,16 @@ fn h_point(site: u32, arg: usize) {
                     ),
                 );
             }
+            if stops > 0 && monitor(|m| m.overlapped.contains(&arg)) {
+                report::violation(
+                    "C15/overlapping-world-stops/thread-released-while-a-stop-is-in-force",
+                    format!(
+                        "t{} left its safepoint at {} while a stop request was still in force: two stop requests overlapped and the resume of the first released the threads of the second",
+                        me,
+                        steel::verif::site_name(site)
+                    ),
+                );
+            }
             if stops > 0 {
                 report::violation(
                     &format!("C15/left-safepoint-during-stop/{}", steel::verif::site_name(site)),
@@ -277,6 +290,13 @@ fn h_point(site: u32, arg: usize) {
                         stops
                     ),
                 );
+            }
+            if stops == 0 {
+                monitor(|m| {
+                    if m.stops_in_force.get(&arg).copied().unwrap_or(0) == 0 {
+                        m.overlapped.remove(&arg);
+                    }
+                });
             }
             check_not_scanned(site);
             sched::yield_point_ex(site, 0, true);
@@ -305,13 +325,23 @@ fn h_point(site: u32, arg: usize) {
         }
         vs::STOP_END => {
             // every registered thread has been told to pause
-            monitor(|m| *m.stops_in_force.entry(arg).or_insert(0) += 1);
+            monitor(|m| {
+                let e = m.stops_in_force.entry(arg).or_insert(0);
+                *e += 1;
+                if *e >= 2 {
+                    m.overlapped.insert(arg);
+                    report::probe("world-stop.two-at-once");
+                }
+            });
             sched::yield_point_ex(site, 0, false);
         }
         vs::RESUME_BEGIN => {
             monitor(|m| {
                 let e = m.stops_in_force.entry(arg).or_insert(0);
                 *e = e.saturating_sub(1);
+                if *e == 0 {
+                    // checked by threads leaving afterwards through `overlap_recent`
+                }
             });
             sched::yield_point_ex(site, 0, false);
         }
